@@ -140,8 +140,33 @@ def stepInt (ts : List String) : Option String :=
       | _ => none
   | _ => none
 
+def hexVal (c : Char) : Option Nat :=
+  if '0' ≤ c && c ≤ '9' then some (c.toNat - '0'.toNat)
+  else if 'a' ≤ c && c ≤ 'f' then some (c.toNat - 'a'.toNat + 10) else none
+
+def hexBytes : List Char → Option (List (BitVec 8))
+  | [] => some []
+  | h :: l :: rest => do
+      let h ← hexVal h; let l ← hexVal l
+      let r ← hexBytes rest
+      pure (BitVec.ofNat 8 (h * 16 + l) :: r)
+  | _ => none
+
+def stepPb (ts : List String) : Option String :=
+  match ts with
+  | ["pb", off, hex] => do
+      let off ← off.toNat?
+      if off > 7 then none else
+      let bs ← hexBytes (if hex = "-" then [] else hex.toList)
+      pure (toString (popcountBuf bs))
+  | _ => none
+
 def step (s : St) (ts : List String) : St × String :=
   match ts with
+  | "pb" :: _ =>
+      match stepPb ts with
+      | some out => (s, out)
+      | none => (s, "bad-op")
   | "agg" :: "d" :: rest =>
       match stepAgg limD false s.d rest with
       | some (d, out) => ({ s with d := d }, out)
